@@ -73,6 +73,7 @@ type RetryOpts struct {
 	DisconnectAt        string `json:"disconnectAt,omitempty"`
 	Hammer              bool   `json:"hammer,omitempty"`              // background goroutines keep calling Ping, Stats, Client, Handle (race-detector runs)
 	HammerPub           int    `json:"hammerPub,omitempty"`           // that many further goroutines keep submitting QoS 0 publishes / subscribes through the retrying client (race-detector runs only: the extra traffic is not part of the workload the observers know)
+	HammerSubs          bool   `json:"hammerSubs,omitempty"`          // the hammerPub goroutines submit Subscribe / Unsubscribe only
 	HammerSleepUs       int    `json:"hammerSleepUs,omitempty"`       // pause between two calls of a hammer goroutine (default 50)
 	ReuseMessage        bool   `json:"reuseMessage,omitempty"`        // the application re-uses one Message value for its publishes (resetting ID, payload, QoS; not Dup)
 	EpilogueLoseSession bool   `json:"epilogueLoseSession,omitempty"` // after quiescence: broker restart (peer close + session lost), settle again
@@ -260,7 +261,16 @@ func runRetry(sc *RetryScenario) *RetryResult {
 					time.Sleep(50 * time.Microsecond)
 					continue
 				}
-				if (n+k)%4 == 3 {
+				if sc.Opts.HammerSubs {
+					// only requests that change the subscription book
+					if n%2 == 0 {
+						cli.Subscribe(ctx, mqtt.Subscription{Topic: "hammer/" + strconv.Itoa(k), QoS: mqtt.QoS1})
+					} else {
+						cli.Unsubscribe(ctx, "hammer/"+strconv.Itoa(k))
+					}
+				} else if (n+k)%8 == 3 {
+					cli.Subscribe(ctx, mqtt.Subscription{Topic: "hammer/" + strconv.Itoa(k), QoS: mqtt.QoS1})
+				} else if (n+k)%8 == 7 {
 					cli.Unsubscribe(ctx, "hammer/"+strconv.Itoa(k))
 				} else {
 					cli.Publish(ctx, &mqtt.Message{Topic: "hammer", QoS: mqtt.QoS0, Payload: []byte("h")})
